@@ -343,7 +343,7 @@ pub fn reply_frame(id: SeqId, r: &Reply) -> Vec<u8> {
         CF_PRINT_LINE => {
             if m % 8 == 7 {
                 // bodies (1 + text) of 251.., exactly 4096, 4097, 8192, 12288, 16384, 40001 and 65535 bytes
-                let n = [250 + m as usize, 4095, 4096, 8191, 12287, 16383, 40000, 65534][(m as usize / 8) % 8];
+                let n = [250 + m as usize, 4095, 300, 4096, 260, 8191, 1000, 12287, 255, 16383, 2000, 40000, 270, 65534, 500, 253][(m as usize / 8) % 16];
                 rc::print_line(m, &long_text(m, n))
             } else {
                 rc::print_line(m, format!("line {m}").as_bytes())
